@@ -379,18 +379,20 @@ mod api {
     use super::*;
     use okkhor::parser::Parser;
 
-    const WORDS: [&str; 14] = ["a", "ami", "amar", "kotha", "sesh", "bow", "cool", "academy", "atm", "smile", "up", "x", "o", "bisoy"];
+    const WORDS: [&str; 18] = ["a", "ami", "amar", "kotha", "sesh", "bow", "cool", "academy", "NGa", "Jhal", "atm", "smile", "up", "x", "o", "bisoy", "kaNGo", "poRa"];
 
     fn phon_texts(bound: usize) -> Vec<String> {
         // words, words wrapped in punctuation, emoticons, punctuation only, escapes
         let mut v: Vec<String> = Vec::new();
-        for w in WORDS.iter().take(if bound >= 2 { 14 } else { 8 }) {
+        for w in WORDS.iter().take(if bound >= 2 { 18 } else { 10 }) {
             v.push(w.to_string());
             v.push(format!("\"{}\"", w));
             v.push(format!("({}.", w));
             v.push(format!("{}:", w));
             v.push(format!("'{}?'", w));
         }
+        // an emoji name followed by punctuation that spells an emoticon: the whole text is no emoticon, so the name's emoji are offered
+        for e in ["cool=)", "(cool;)", "smile:)", "up:-)"] { v.push(e.to_string()); }
         for e in [":)", ";)", "x)", "o=)", ":D", "<3", ":-))", ".", "...", "\"", "`", "`a", "a`", ":e", "\\", "^_^", "$", "a:`", "kothagulo", "seshgulo", "amake", "bisoyshombondhiyoo", "shok,,", ",,k", "(k,,)", "k,", "sad", "poRa", "kotha.\"", "\"kotha..", "'k,,'", ".\"ami\"."] { v.push(e.to_string()); }
         if bound >= 2 {
             // exhaustive: every text of one or two of the 94 typeable characters
@@ -491,6 +493,7 @@ mod api {
         let suffixes: std::collections::HashMap<String, String> = serde_json::from_str(&std::fs::read_to_string(format!("{}/suffix.json", crate::verif_driver::data_dir())).unwrap()).unwrap();
         let textsv = phon_texts(bound);
         let oracle = Oracle::new();
+        let emoji_tables: Value = serde_json::from_str(&std::fs::read_to_string(crate::verif_driver::gen_file("emoji_tables.json")).unwrap_or("{}".into())).unwrap_or(json!({}));
         let mut idx = 0usize;
         for sug in [true, false] { for eng in [false, true] { for smart in [false, true] { for ansi in [false, true] {
             let cfgv = phon_cfg(json!({"phonetic_suggestion": sug, "include_english": eng, "smart_quote": smart, "ansi": ansi}));
@@ -532,8 +535,9 @@ mod api {
                 if !list.contains(&translit) { o.fail(json!({"clause": "C03 transliteration is a candidate", "history": s.history(), "observed": list, "expected": translit})); }
                 // C07: no candidate text twice
                 for i in 0..list.len() { for j in 0..i { if list[i] == list[j] { o.fail(json!({"clause": "C07 no candidate text occurs twice", "history": s.history(), "observed": list})); } } }
-                let emoticon = data.get_emoji_by_emoticon(t).map(|e| e.to_string());
-                let named: Vec<String> = if emoticon.is_none() { data.get_emoji_by_name(&w).map(|i| i.map(|e| format!("{}{}{}", pc, e, tc)).collect()).unwrap_or_default() } else { vec![] };
+                // the emojicon tables read from the crate's sources (tools/gen_tables.py), not through the engine's look-up functions
+                let emoticon = emoji_tables["emoticon_map"][t.as_str()].as_str().map(|e| e.to_string());
+                let named: Vec<String> = if emoticon.is_none() { emoji_tables["names_map"][w.as_str()].as_array().map(|a| a.iter().map(|e| format!("{}{}{}", pc, e.as_str().unwrap(), tc)).collect()).unwrap_or_default() } else { vec![] };
                 let is_emoji = |x: &String| Some(x) == emoticon.as_ref() || named.contains(x);
                 if ansi {
                     // C16: nothing that cannot be encoded
@@ -592,6 +596,28 @@ mod api {
                 o.sample(json!({"text": t, "list": list}));
             }
         }}}}
+        // long compositions (80 keys without an end of word): every key is kept -- the auxiliary text is the raw typed text after every
+        // key and after every backspace (C02), whatever the length
+        if shard == 0 {
+            for sugg in [true, false] { for w in ["ka".repeat(40), "kotha".repeat(16), "a1".repeat(40)] {
+                o.cases += 1;
+                let mut s = Sess::new(phon_cfg(json!({"phonetic_suggestion": sugg})));
+                let mut typed = String::new();
+                let mut bad = false;
+                for c in w.chars() {
+                    typed.push(c);
+                    let sg = s.key(c, 0);
+                    if let Some(e) = check_sg(&sg, Some(&typed)) { o.fail(json!({"clause": format!("C02 {} (long composition)", e), "history": {"config": s.cfgv, "events": [{"type": typed}]}})); bad = true; break; }
+                }
+                if bad { continue; }
+                for _ in 0..5 {
+                    typed.pop();
+                    let sg = s.bs(false);
+                    if let Some(e) = check_sg(&sg, Some(&typed)) { o.fail(json!({"clause": format!("C02 {} (long composition, backspace)", e), "history": {"config": s.cfgv, "events": [{"type": w}, {"backspaces": 5}]}})); break; }
+                }
+                o.nontrivial += 1;
+            } }
+        }
         // data-guided corpus: every typeable key of autocorrect.json (quick: every 40th) plus words whose dictionary hits
         // are spelled with a ZWNJ, typed key by key with suggestions on: C02 per key, the C07 list oracle at the end
         {
@@ -1259,10 +1285,19 @@ mod api {
             if let Some(b) = before { std::fs::write(&path, b).unwrap(); crate::verif_driver::set_mtime(&path, 1_000_000); }
             let mut s = Sess::new(cfgv.clone());
             for w in ["hello", "zzq", "hellogulo", "kotha"] { let _ = s.typ(w); s.finish(); }
-            match after { Some(a) => { std::fs::write(&path, a).unwrap(); crate::verif_driver::set_mtime(&path, 2_000_000); } None => { let _ = std::fs::remove_file(&path); } }
+            // the edit reaches the disk the way editors and settings dialogs save: in place for the first four, as a new file renamed
+            // over the old one (another inode under the same name) for the others
+            match after {
+                Some(a) => {
+                    if name.len() % 2 == 0 { std::fs::write(&path, a).unwrap(); }
+                    else { let tmp = format!("{}.tmp", path); std::fs::write(&tmp, a).unwrap(); std::fs::rename(&tmp, &path).unwrap(); }
+                    crate::verif_driver::set_mtime(&path, 2_000_000);
+                }
+                None => { let _ = std::fs::remove_file(&path); }
+            }
             let cfg = make_config(&cfgv);
             s.ctx.update_engine(&cfg);
-            s.events.push(json!({"note": format!("user auto-correct edit: {}; then update_engine", name)}));
+            s.events.push(json!({"note": format!("user auto-correct edit: {} ({}); then update_engine", name, if name.len() % 2 == 0 { "written in place" } else { "renamed over" })}));
             let mut fresh = Sess::new(cfgv.clone());
             for w in ["hello", "zzq", "hellogulo", "zzqgulo", "kotha"] {
                 let r = std::panic::catch_unwind(std::panic::AssertUnwindSafe(|| { let a = s.typ(w).unwrap(); s.finish(); a }));
@@ -1409,7 +1444,8 @@ mod api {
             }}
         }
         // phonetic -> fixed layout -> (user auto-correct file edited meanwhile) -> phonetic again: as a new context
-        for (name, before, after) in [("add", None, Some("{\"zzq\":\"kotha\"}")), ("change", Some("{\"zzq\":\"kotha\"}"), Some("{\"zzq\":\"amar\"}")), ("remove file", Some("{\"zzq\":\"kotha\"}"), None)] {
+        for (name, before, after) in [("add", None, Some("{\"zzq\":\"kotha\"}")), ("change", Some("{\"zzq\":\"kotha\"}"), Some("{\"zzq\":\"amar\"}")), ("remove file", Some("{\"zzq\":\"kotha\"}"), None),
+                                      ("damage", Some("{\"zzq\":\"kotha\"}"), Some("{\"zzq\":\"ko")), ("wrong shape", Some("{\"zzq\":\"kotha\"}"), Some("[\"zzq\"]"))] {
             o.cases += 1;
             crate::verif_driver::reset_user_files();
             let path = crate::verif_driver::user_file_path("autocorrect.json");
@@ -1426,7 +1462,7 @@ mod api {
             for w in ["zzq", "zzqgulo", "kotha"] {
                 let x = s.typ(w).unwrap(); s.finish();
                 let y = fresh.typ(w).unwrap(); fresh.finish();
-                if show(&x) != show(&y) { o.fail(json!({"clause": "C11 a changed layout switches the method; back on the phonetic layout every event behaves as in a new context (user auto-correct file edited while the fixed layout was active)", "edit": name, "probe": w, "history": s.history(), "observed": show(&x), "expected": show(&y)})); }
+                if show(&x) != show(&y) { o.fail(json!({"clause": "C11 C10 a changed layout switches the method; back on the phonetic layout every event behaves as in a new context (user auto-correct file edited, damaged or removed while the fixed layout was active)", "edit": name, "probe": w, "history": s.history(), "observed": show(&x), "expected": show(&y)})); }
             }
             o.nontrivial += 1;
         }
@@ -1440,7 +1476,7 @@ mod api {
             let opts = ["phonetic_suggestion", "include_english", "fixed_suggestion", "fixed_vowel", "fixed_chandra", "fixed_kar", "fixed_old_reph", "fixed_numpad", "fixed_kar_order", "ansi", "smart_quote"];
             let bases: Vec<(&str, Value, Vec<&str>)> = vec![
                 ("phonetic", full("avro_phonetic".into()), vec!["amar", "cool", "\"kotha\"", "academy", ";)", "a", "o"]),
-                ("probhat", full(crate::verif_driver::probhat_layout()), vec!["bab", "tp", "hasi", "\"tp\"", "kuk", ";)", "[k", "k[a", "ru", "k>a", "ab", "ek", "ik"]),
+                ("probhat", full(crate::verif_driver::probhat_layout()), vec!["bab", "tp", "hasi", "\"tp\"", "kuk", ";)", "[k", "k[a", "ru", "k>a", "ab", "ek", "ik", "mQ"]),
                 // the synthetic layout has a reph key (q), hasanta (w), left-standing signs (d e f), chandrabindu (o), ZWJ (`): one probe
                 // at least is sensitive to each composition helper -- from a base with the helpers off and from one with all of them on
                 ("synthetic", full(crate::verif_driver::synthetic_layout()), vec!["tq", "tpq", "twtq", "ftq", "dt", "et", "dtp", "top", "toe", "p", "ept", "uc", "tuc", "\"tp\"", ";)"]),
@@ -1451,7 +1487,7 @@ mod api {
                 kt.as_array().cloned().unwrap_or_default().iter().filter(|r| r["kind"] == "pad").map(|r| r["code"].as_u64().unwrap() as u16).collect() };
             for (bn, base, probes) in &bases { for opt in opts { for first in [false, true] {
                 o.cases += 1;
-                let tag = match opt { "ansi" => "C05 C11 C16 C18", "smart_quote" => "C05 C11 C17", "include_english" => "C05 C11 C16 C15", "fixed_kar_order" => "C05 C11 C14 C04", "fixed_kar" | "fixed_vowel" | "fixed_chandra" => "C05 C11 C12 C04", "fixed_old_reph" => "C05 C11 C13 C04", "fixed_numpad" => "C05 C11 C04", _ => "C05 C11" };
+                let tag = match opt { "ansi" => "C05 C06 C11 C16 C18", "smart_quote" => "C05 C06 C11 C17", "include_english" => "C05 C06 C11 C16 C15", "fixed_kar_order" => "C05 C06 C11 C14 C04", "fixed_kar" | "fixed_vowel" | "fixed_chandra" => "C05 C06 C11 C12 C04", "fixed_old_reph" => "C05 C06 C11 C13 C04", "fixed_numpad" => "C05 C06 C11 C04", _ => "C05 C06 C11" };
                 let mut a = base.clone(); a[opt] = json!(first);
                 let mut b = base.clone(); b[opt] = json!(!first);
                 crate::verif_driver::reset_user_files();
@@ -1509,7 +1545,7 @@ mod api {
                     let x = warm.typ(w).unwrap(); warm.finish();
                     let y = cold.typ(w).unwrap(); cold.finish();
                     if show(&x) != show(&y) {
-                        o.fail(json!({"clause": "C05 C08 after update_engine with a configuration that names another data directory, a context that composed the words before and one that composed nothing give the same suggestions", "switch": what, "probe": w, "history": warm.history(), "observed": show(&x), "expected": show(&y)}));
+                        o.fail(json!({"clause": "C05 C08 C07 after update_engine with a configuration that names another data directory, a context that composed the words before and one that composed nothing give the same suggestions", "switch": what, "probe": w, "history": warm.history(), "observed": show(&x), "expected": show(&y)}));
                         break;
                     }
                 }
@@ -1526,10 +1562,14 @@ mod api {
                 "fixed_suggestion": false, "fixed_vowel": false, "fixed_chandra": false, "fixed_kar": false, "fixed_old_reph": false,
                 "fixed_numpad": true, "fixed_kar_order": false, "ansi": false, "smart_quote": false });
             let (pl, sl) = (mk(crate::verif_driver::probhat_layout()), mk(crate::verif_driver::synthetic_layout()));
-            for (a, b, dir) in [(&pl, &sl, "Probhat -> synthetic"), (&sl, &pl, "synthetic -> Probhat")] {
+            let via = { let mut c = mk("avro_phonetic".into()); c["phonetic_suggestion"] = json!(true); c };
+            for (a, b, dir, hop) in [(&pl, &sl, "Probhat -> synthetic", false), (&sl, &pl, "synthetic -> Probhat", false),
+                                     (&pl, &sl, "Probhat -> phonetic -> synthetic", true), (&sl, &pl, "synthetic -> phonetic -> Probhat", true)] {
                 o.cases += 1;
                 let mut s = Sess::new(a.clone());
                 let _ = s.typ("tp"); s.finish();
+                // with a stay on the phonetic layout in between: the fixed method that comes back is one for the NEW file
+                if hop { s.update(&via); let _ = s.typ("ami"); s.finish(); }
                 s.update(b);
                 let mut fresh = Sess::new(b.clone());
                 let mut reported = 0;
@@ -2289,10 +2329,10 @@ mod rules {
     }
 
     pub(crate) fn run(bound: usize, shard: usize, nshards: usize) -> Value {
-        let mut o = Out::new("fixed_rules", bound, "all key histories of length <= bound (quick 3) over 12 keys of the synthetic layout + backspace, old reph off, x 8 settings of {auto vowel, auto chandrabindu, traditional joining}; step-by-step against the C12 model; typewriter-order vs Unicode-order words for C14");
+        let mut o = Out::new("fixed_rules", bound, "all key histories of length <= bound (quick 3) over 13 keys of the synthetic layout (incl. the ZWNJ key) + backspace, old reph off, x 8 settings of {auto vowel, auto chandrabindu, traditional joining}; step-by-step against the C12 model; typewriter-order vs Unicode-order words for C14");
         // t=ক u=র w=্ y=্য p=া e=ি c=ু o=ঁ x=। h=ৗ j=ুঁ z=ৄ
-        let keys = ['t', 'u', 'w', 'y', 'p', 'e', 'c', 'o', 'x', 'h', 'j', 'z', '\u{8}'];
-        let values = ["ক", "র", "্", "্য", "া", "ি", "ু", "ঁ", "।", "ৗ", "ুঁ", "ৄ"];
+        let keys = ['t', 'u', 'w', 'y', 'p', 'e', 'c', 'o', 'x', 'h', 'j', 'z', '\\', '\u{8}'];
+        let values = ["ক", "র", "্", "্য", "া", "ি", "ু", "ঁ", "।", "ৗ", "ুঁ", "ৄ", "\u{200C}"];
         let mut fails = Vec::new();
         let mut nt = 0u64;
         let mut cases = 0u64;
@@ -2378,6 +2418,21 @@ mod rules {
                 nt += 1;
                 if ta != tb {
                     fails.push(json!({"clause": "C14 typewriter-order typing == Unicode-order typing", "history": a.history(), "unicode_order_history": b.history(), "observed": ta, "expected": tb}));
+                }
+                // both syllables with the SAME sign (the second one's left part is typed while the first one's sign is the last character)
+                if !chandra_end {
+                    cases += 1;
+                    let mk = |order: bool| { let mut c = fixed_cfg(json!({"fixed_vowel": vowel, "fixed_chandra": chandra, "fixed_kar": trad, "fixed_kar_order": order})); c.as_object_mut().unwrap().remove("database_dir"); c };
+                    let tw2 = format!("{}{}{}{}{}{}", lead, c1, tail, lead, c2, tail);
+                    let un2 = format!("{}{}{}{}", c1, uni_sign, c2, uni_sign);
+                    let mut a2 = Sess::new(mk(true));
+                    let mut b2 = Sess::new(mk(false));
+                    let ta2 = a2.typ(&tw2).map(|s| s.get_lonely_suggestion().to_string()).unwrap_or_default();
+                    let tb2 = b2.typ(&un2).map(|s| s.get_lonely_suggestion().to_string()).unwrap_or_default();
+                    nt += 1;
+                    if ta2 != tb2 {
+                        fails.push(json!({"clause": "C14 typewriter-order typing == Unicode-order typing (two syllables with the same sign)", "history": a2.history(), "unicode_order_history": b2.history(), "observed": ta2, "expected": tb2}));
+                    }
                 }
             }}}}
         }
